@@ -167,12 +167,21 @@ fn read_body_port_message<'n>(
         return Err(WriterError::NodeNotFound("operation_name".to_string()));
     };
 
-    // the parts that the sibling soap:header elements bind are not part of the body
+    // the parts of this message that the sibling soap:header elements bind are not part of the body
+    // (a header may also bind a part of another message; that one says nothing about this message)
+    let this_message = match in_or_out {
+        InputOrOutput::Input => Some(port_operation.input.message.xml_name.as_str()),
+        InputOrOutput::Output => port_operation.output.as_ref().map(|o| o.message.xml_name.as_str()),
+    };
     let header_parts: Vec<&str> = node
         .parent()
         .map(|p| {
             p.children()
                 .filter(|n| n.is_element() && n.tag_name().name() == "header")
+                .filter(|n| {
+                    n.attribute("message")
+                        .is_none_or(|message| Some(resolve_type(message, doc).0) == this_message)
+                })
                 .filter_map(|n| n.attribute("part"))
                 .collect()
         })
@@ -237,6 +246,22 @@ fn read_header_port_message<'n>(
     let part = n
         .attribute("part")
         .ok_or_else(|| WriterError::attribute_missing(&n, "part"))?;
+
+    // a header names the message its part belongs to: often a message of its own, not the
+    // operation's input or output message
+    if let Some(message) = n.attribute("message") {
+        let (message_name, namespace) = resolve_type(message, doc);
+        let message = doc
+            .find_message_by_xml_name(message_name, namespace.as_deref())
+            .cloned()
+            .ok_or_else(|| WriterError::MessageNotFound(message_name.to_string()))?;
+        let (part_name, _namespace) = resolve_type(part, doc);
+        let (rust_node, _namespace) = message
+            .parts
+            .get(part_name)
+            .ok_or_else(|| WriterError::NodeNotFound(part_name.to_string()))?;
+        return Ok((part.to_string(), rust_node.clone()));
+    }
 
     // lookup the message on the port type
     let rust_node = map_to_rust_node(doc, port_operation, in_or_out, part)?;
